@@ -8,3 +8,5 @@ import Spade.Properties.C05
 #print axioms Spade.C05_remove_moves_last
 #print axioms Spade.C05_step_size
 #print axioms Spade.C05_history_size
+#print axioms Spade.C05_model_new_handle_is_len
+#print axioms Spade.C05_model_keeps_handles
